@@ -48,13 +48,20 @@ package actions
 // C03: acknowledge completes exactly the listed, still open deliveries and changes nothing else.
 //@ func (*AckDeliveries).Execute(a, ctx, tx) (err)
 //@   property C03
-//@   uses tables
+//@   uses tables notifyspec
 //@   requires a != nil && tx != nil
 //@   ensures acked: err == nil ==> (forall d Id :: old(open(d)) && old(inlist(d, a.params.ids)) ==> deliveries.exists(d) && !deliveries.completed_at$null(d))
 //@   ensures others_untouched: forall d Id :: !(old(open(d)) && old(inlist(d, a.params.ids))) ==>
 //@             deliveries.completed_at$null(d) == old(deliveries.completed_at$null(d))
 //@   ensures no_swallowed_failure: [C09] dbfailed() && !old(dbfailed()) ==> err != nil
-//@   modifies T:deliveries:completed_at, T:deliveries:completed_at$null, S:dbfailed, E:uuid.UUID:, F:actions.AckDeliveries:actionBase.results, F:actions.ackDeliveriesResults:*, F:actions.actionTimer:*
+//@   ensures wakes: [C10] err == nil ==> (forall d Id :: old(open(d)) && old(inlist(d, a.params.ids)) ==> wake_on_commit(old(deliveries.subscription_id(d))))
+//@   modifies T:deliveries:completed_at, T:deliveries:completed_at$null, S:dbfailed, S:wake_on_commit, E:uuid.UUID:, F:actions.AckDeliveries:actionBase.results, F:actions.ackDeliveriesResults:*, F:actions.actionTimer:*
+
+// the commit hook of AckDeliveries wakes every subscription that had a delivery acknowledged
+//@ func (*AckDeliveries).Execute$3$1(ctx, tx) (err)
+//@   inline
+//@   loop 1
+//@     invariant forall k int :: {subIDs[k]} 0 <= k && k <= idx ==> wake_requested(subIDs[k])
 
 // C13: seek to time T on subscription S (resolved by id and/or name among live subscriptions), at instant now:
 // every retained delivery of S (expires_at >= now) published at or before T ends up acknowledged; every
